@@ -85,6 +85,7 @@ class NoReturnView(object):
         return False if self.exhaustive else None
 
 
+@core.crash_guard({'checked_reads': 0, 'nontrivial': True, 'runs': 0, 'exhaustive': False, 'skipped': None})
 def check_program(prog, cap):
     src = prog['src']
     info = {'checked_reads': 0, 'nontrivial': False, 'runs': 0, 'exhaustive': False, 'skipped': None}
